@@ -8,7 +8,11 @@ import PegVerif.Model.Analysis
   * The label counter `label` and a switch counter are threaded (`CSt`).
   * `parentDetect` / `parentMultipleKey` are node fields in Go; every parent that propagates them
     assigns the child's fields immediately before compiling it and every other node keeps the
-    initial `false`, so they are arguments `pd pmk` here.
+    initial `false`, so they are arguments `pd pmk` here.  They are handed to the node executed
+    first by sequence, choice, `<…>`, implicit push, inlined name and `?`; `&e`, `!e`, `e*` and `e+`
+    compile their operand with both flags false (the operand may run at a later position, or its
+    failure is what the parent wants).  Under `pd` a `.` is `position++`; a character or a range
+    elides its test only when the case has a single key (`pd && !pmk`).
   * `labels[n]` (was a jump to `ln` printed?) is read by `printLabel`.  It is filled by the dry
     pass; the real pass prints a subset of the dry pass's jumps, so it is the fixed function
     `env.used` here (see `compileAll`).
@@ -43,14 +47,14 @@ deriving Repr, Inhabited
 mutual
   def compile (env : CEnv) : Expr → (ko : Nat) → (pd pmk : Bool) → CSt → COut
     | .dot, ko, pd, _, st =>
-      ⟨if pd then [] else [.ifNotDot ko], st, false⟩
+      ⟨if pd then [.inc] else [.ifNotDot ko], st, false⟩
     | .name n, ko, _, _, st =>
       ⟨if env.always n then [.call n] else [.callIf n ko], st, false⟩
     | .inl _ e, ko, pd, pmk, st =>
       let r := compile env e ko pd pmk st
       ⟨r.code, r.st, false⟩
-    | .rng lo hi, ko, pd, _, st =>
-      ⟨if pd then [.inc] else [.ifNotRng lo hi ko, .inc], st, false⟩
+    | .rng lo hi, ko, pd, pmk, st =>
+      ⟨if pd && !pmk then [.inc] else [.ifNotRng lo hi ko, .inc], st, false⟩
     | .chr c, ko, pd, pmk, st =>
       ⟨if pd && !pmk then [.inc] else [.ifNeChr c ko, .inc], st, false⟩
     | .str s, ko, _, _, st => ⟨[.ifNotStr s ko], st, false⟩
@@ -88,13 +92,13 @@ mutual
       ⟨[.bb, .switchOn sw (ks.take (es.length - 1))] ++ b.code ++ [.send sw, .be] ++ env.lbl ok,
         b.st, env.used ok⟩
     | .seq es, ko, pd, pmk, st => compileSeq env es ko pd pmk st
-    | .peekFor e, ko, pd, pmk, st =>
+    | .peekFor e, ko, _, _, st =>
       let ok := st.label
-      let b := compile env e ko pd pmk { st with label := st.label + 1 }
+      let b := compile env e ko false false { st with label := st.label + 1 }
       ⟨[.bb, .save ok] ++ b.code ++ [.restore ok, .be], b.st, false⟩
-    | .peekNot e, ko, pd, pmk, st =>
+    | .peekNot e, ko, _, _, st =>
       let ok := st.label
-      let b := compile env e ok pd pmk { st with label := st.label + 1 }
+      let b := compile env e ok false false { st with label := st.label + 1 }
       ⟨[.bb, .save ok] ++ b.code ++ [.goto ko] ++ env.lbl ok ++ [.restore ok, .be], b.st, false⟩
     | .query e, _, pd, pmk, st =>
       let qko := st.label
@@ -102,10 +106,10 @@ mutual
       let b := compile env e qko pd pmk { st with label := st.label + 2 }
       ⟨[.bb, .save qko] ++ b.code ++ [.goto qok] ++ env.lbl qko ++ [.restore qko, .be] ++ env.lbl qok,
         b.st, env.used qok⟩
-    | .star e, _, pd, pmk, st =>
+    | .star e, _, _, _, st =>
       let again := st.label
       let out := st.label + 1
-      let b := compile env e out pd pmk { st with label := st.label + 2 }
+      let b := compile env e out false false { st with label := st.label + 2 }
       ⟨env.lbl again ++ [.bb, .save out] ++ b.code ++ [.goto again] ++ env.lbl out ++ [.restore out, .be],
         b.st, false⟩
     | .plus e, ko, _, _, st =>
